@@ -1,7 +1,7 @@
 (** C08 — the 14-bit CC scanner reports exactly the justified messages.
     Only the property theorems; each closed by [exact <lemma>]. *)
 From Verif Require Import Base.Prelude Model.ShortMsg Model.PerChannel Model.CC14
-  Spec.MidiTable Spec.CC14Spec Proofs.CC14Proofs.
+  Spec.MidiTable Spec.CC14Spec Proofs.CC14Proofs Proofs.RepeatStable.
 
 (** For every finite history of valid feeds and resets (no bound on its length), the scanner never
     panics and its outputs are, operation by operation, those of the history-level specification
@@ -37,6 +37,15 @@ Theorem C08_lsb_repeat_and_msb_replace :
   = [None; Some (mkCC14 0 1 1281); Some (mkCC14 0 1 1282); None; None; Some (mkCC14 0 2 2564)].
 Proof. vm_compute. reflexivity. Qed.
 
+(** feeding one message again and again: after its first application the scanner is at a fixed
+    point of that message -- every further application returns the same state and the same
+    output, however often it is repeated (what "the previous operation again n times" of the
+    correspondence records relies on) *)
+Theorem C08_repeated_feed_is_stable : forall s b s1 o1 s2 o2,
+  cc14_feed s b = Ok (s1, o1) -> cc14_feed s1 b = Ok (s2, o2) -> cc14_feed s2 b = Ok (s2, o2).
+Proof. exact cc14_feed_repeats. Qed.
+
 Print Assumptions C08_scanner_exact.
+Print Assumptions C08_repeated_feed_is_stable.
 Print Assumptions C08_spec_reads.
 Print Assumptions C08_lsb_repeat_and_msb_replace.
